@@ -81,7 +81,7 @@ ASSUMPTIONS = [
 TIERS = {
     "quick": {
         "mc": [("upd", 2, (1, 0, 0)), ("list", 3, (0, 0, 0)), ("exp", 1, (0, 0, 0)), ("e2e", 3, (0, 0, 0))],
-        "gen": [("upd", 2, (0, 0, 0), 1), ("list", 2, (0, 0, 0), 1), ("exp", 1, (0, 0, 0), 8)],
+        "gen": [("upd", 2, (0, 0, 0), 1), ("upd", 2, (1, 1, 0), 5), ("list", 2, (0, 0, 0), 1), ("exp", 1, (0, 0, 0), 8)],
         "random": [("import", 25, 25), ("export", 300, 1)],
         # end to end: (profile, depth, richness, walk length, number of walks replayed or None = all), random (walks, length)
         "e2e_gen": [(3, (0, 0, 0), 40, 12)],
